@@ -76,7 +76,7 @@ def rdOccs : Nat → Bytes → Option (List PropOcc)
         | some (v, r') => (rdOccs fuel r').map fun rest => ⟨id, v⟩ :: rest
 
 /-- property length + properties, checked against the rules of packet kind `k` -/
-def rdProps (k : Kind) : P (List PropOcc) := do
+def rdProps (k : Nat) : P (List PropOcc) := do
   let n ← rdVbi
   let sect ← rdBytes n
   match rdOccs (sect.length + 1) sect with
@@ -105,7 +105,7 @@ def rdTopics : Nat → P (List Bytes)
     pure (f :: more)
 
 /-- reason code / properties with the short forms of §3.4.2.1, §3.14.2.1, §3.15.2.1 -/
-def rdFormed (k : Kind) : P (Form × UInt8 × List PropOcc) := do
+def rdFormed (k : Nat) : P (Form × UInt8 × List PropOcc) := do
   if (← atEnd) then pure (.bare, 0, []) else
   let reason ← rdU8
   if (← atEnd) then pure (.reason, reason, []) else
@@ -214,7 +214,7 @@ def parse (frame : Bytes) : Option SPacket :=
         | some (sp, []) => some sp
         | _ => none
 
-def kindName : Kind → String
+def kindName : Nat → String
   | 1 => "Connect" | 2 => "ConnAck" | 3 => "Publish" | 4 => "PubAck" | 5 => "PubRec" | 6 => "PubRel"
   | 7 => "PubComp" | 8 => "Subscribe" | 9 => "SubAck" | 10 => "Unsubscribe" | 11 => "UnsubAck"
   | 12 => "PingReq" | 13 => "PingResp" | 14 => "Disconnect" | _ => "Auth"
